@@ -12,7 +12,7 @@
   * orchestrator  `spawnBegin kinds` — `operator_blocked = await make_toggle("orchestration blocker")`
                   `spawn r`          — `[resource_indexed = await make_toggle(name=what)]`, watcher task created
                   `spawnEnd`         — `await drop_toggle(operator_blocked)`
-  * watcher r     `check r on`       — first event of an object without a stream, watcher still gating:
+  * watcher r     `check r o on`     — first event of object `o` without a stream, watcher still gating:
                                        `if operator_indexed.is_on(): operator_indexed = None`
                                        (`on` = what `is_on()` returned; the following
                                        `await make_toggle` may suspend, so this is its own label)
@@ -25,8 +25,11 @@
                   `handle`           — `process_resource_causes` begins (handlers, daemons, timers)
                   `finish`, `again`, `exit` — end of the cycle, next event of the same worker, idle exit
 
-  One `spawn_missing_watchers` batch is modelled (the start-up); kinds discovered later are
-  outside "every indexed resource kind has been listed … once" (stated limit).
+  `spawn_missing_watchers` may run any number of times (`spawnBegin` whenever no batch is in
+  progress): kinds discovered later get their own blocker and per-kind toggles. The property's
+  "every indexed resource kind … once" is about the FIRST batch (`first`, `firstDone`, `Ready1`);
+  `Ready` is the stronger momentary fact about every kind spawned so far, which holds whenever a
+  waiter passes. Not modelled: a watcher that died and is spawned again under the same kind.
 
   `Bug` selects deliberately broken variants, used only for non-vacuity witnesses.
 -/
@@ -61,24 +64,28 @@ structure GState (R O : Type) where
   objTog : List (R × O)           -- per-object toggles in the set
   listed : List R                 -- kinds whose LISTED has been consumed at least once
   detached : List R               -- watchers with `operator_indexed = None`
-  checked : List R                -- watchers that saw `is_on() == False` and are about to add a toggle
+  checked : List (R × O)          -- watcher r saw `is_on() == False` for object o and is about to add its toggle
   workers : R × O → Option Worker
   -- history variables (for the property only; no guard reads them)
   listing : List (R × O)          -- objects of indexed kinds that arrived before the kind's LISTED
   indexedOnce : List (R × O)      -- objects whose `index_resource` completed at least once
   everOn : Bool                   -- somebody has observed the set to be on
   handled : Bool                  -- some worker has reached the handlers
+  first : List R                  -- indexed kinds spawned by the first batch (the start-up)
+  firstDone : Bool                -- the first batch has dropped its blocker
+  wlist : List (R × O)            -- every object that ever got a worker (to enumerate `workers`)
 
 def GState.init {R O : Type} : GState R O :=
   { started := false, spawning := false, blocker := false, pending := [], spawned := [],
     resTog := [], objTog := [], listed := [], detached := [], checked := [], workers := fun _ => none,
-    listing := [], indexedOnce := [], everOn := false, handled := false }
+    listing := [], indexedOnce := [], everOn := false, handled := false,
+    first := [], firstDone := false, wlist := [] }
 
 inductive Label (R O : Type) where
   | spawnBegin (kinds : List (R × Bool))
   | spawn (r : R)
   | spawnEnd
-  | check (r : R) (on : Bool)                         -- `on` as observed
+  | check (r : R) (o : O) (on : Bool)                 -- `on` as observed
   | arrive (r : R) (o : O) (gated hasToggle : Bool)   -- flags as observed on the started worker
   | listed (r : R)
   | index (r : R) (o : O)
@@ -108,26 +115,31 @@ def free (s : GState R O) (ro : R × O) : Bool :=
 
 def step (bug : Bug) (s : GState R O) : Label R O → Option (GState R O)
   | .spawnBegin kinds =>
-    if s.started then none
-    else some { s with started := true, spawning := true,
-                       blocker := (bug != .noBlocker), pending := kinds }
+    -- only kinds without a watcher task are spawned (`if dkey not in ensemble.watcher_tasks`)
+    if !s.spawning && decide ((kinds.map Prod.fst).Nodup) &&
+        kinds.all (fun p => (aget p.1 s.spawned).isNone) then
+      some { s with started := true, spawning := true,
+                    blocker := (bug != .noBlocker), pending := kinds }
+    else none
   | .spawn r =>
     match s.pending with
     | [] => none
     | (r', ind) :: rest =>
       if s.spawning && decide (r' = r) && (aget r s.spawned).isNone then
         some { s with pending := rest, spawned := s.spawned ++ [(r, ind)],
-                      resTog := if ind && (bug != .noKindToggle) then sadd r s.resTog else s.resTog }
+                      resTog := if ind && (bug != .noKindToggle) then sadd r s.resTog else s.resTog,
+                      first := if ind && !s.firstDone then sadd r s.first else s.first }
       else none
   | .spawnEnd =>
-    if s.spawning && s.pending.isEmpty then some { s with spawning := false, blocker := false }
+    if s.spawning && s.pending.isEmpty then
+      some { s with spawning := false, blocker := false, firstDone := true }
     else none
-  | .check r on =>
+  | .check r o on =>
     match aget r s.spawned with
     | some _ =>
-      if on = s.isOn ∧ r ∉ s.detached ∧ r ∉ s.checked then
+      if free s (r, o) = true ∧ on = s.isOn ∧ r ∉ s.detached ∧ r ∉ s.checked.map Prod.fst then
         if on then some { s with detached := sadd r s.detached, everOn := true }
-        else some { s with checked := sadd r s.checked }
+        else some { s with checked := sadd (r, o) s.checked }
       else none
     | none => none
   | .arrive r o gated hasToggle =>
@@ -136,10 +148,11 @@ def step (bug : Bug) (s : GState R O) : Label R O → Option (GState R O)
       if free s (r, o) then
         let det := decide (r ∈ s.detached)
         let t := !det && ind
-        if gated = (!det) ∧ hasToggle = t ∧ (det = true ∨ r ∈ s.checked) then
-          some { s with checked := sdel r s.checked,
+        if gated = (!det) ∧ hasToggle = t ∧ (det = true ∨ (r, o) ∈ s.checked) then
+          some { s with checked := sdel (r, o) s.checked,
                         objTog := if t then sadd (r, o) s.objTog else s.objTog,
                         workers := upd s.workers (r, o) (some ⟨.queued, !det, t⟩),
+                        wlist := sadd (r, o) s.wlist,
                         listing := if ind && !decide (r ∈ s.listed) then sadd (r, o) s.listing else s.listing }
         else none
       else none
@@ -147,8 +160,11 @@ def step (bug : Bug) (s : GState R O) : Label R O → Option (GState R O)
   | .listed r =>
     match aget r s.spawned with
     | some ind =>
-      some { s with listed := sadd r s.listed,
-                    resTog := if ind && !decide (r ∈ s.detached) then sdel r s.resTog else s.resTog }
+      -- one watcher coroutine: LISTED is not consumed between its `is_on()` test and the toggle
+      if r ∈ s.checked.map Prod.fst then none
+      else
+        some { s with listed := sadd r s.listed,
+                      resTog := if ind && !decide (r ∈ s.detached) then sdel r s.resTog else s.resTog }
     | none => none
   | .index r o =>
     match s.workers (r, o) with
@@ -185,7 +201,9 @@ def step (bug : Bug) (s : GState R O) : Label R O → Option (GState R O)
     | none => none
   | .again r o =>
     match s.workers (r, o) with
-    | some w => if w.pc = .idle then some (setPc s (r, o) w .queued) else none
+    | some w =>
+      -- the worker is alive (its stream exists): the watcher made no `is_on()` test for this object
+      if w.pc = .idle ∧ (r, o) ∉ s.checked then some (setPc s (r, o) w .queued) else none
     | none => none
   | .exit r o =>
     match s.workers (r, o) with
@@ -208,6 +226,22 @@ def Ready (s : GState R O) : Prop :=
   s.blocker = false ∧ s.spawning = false ∧ s.pending = [] ∧
   (∀ r, aget r s.spawned = some true → r ∈ s.listed) ∧
   (∀ ro, ro ∈ s.listing → ro ∈ s.indexedOnce)
+
+/-- The property's right-hand side proper: the FIRST batch (the start-up) is complete, each of its
+    indexed kinds has delivered LISTED, and every object of those initial listings has been through
+    `index_resource`. Stable: once true it stays true, also when later batches re-close the gate. -/
+def Ready1 (s : GState R O) : Prop :=
+  s.firstDone = true ∧ (∀ r, r ∈ s.first → r ∈ s.listed) ∧
+  (∀ ro, ro ∈ s.listing → ro.1 ∈ s.first → ro ∈ s.indexedOnce)
+
+def ready1B (s : GState R O) : Bool :=
+  s.firstDone && s.first.all (fun r => decide (r ∈ s.listed)) &&
+  s.listing.all (fun ro => !decide (ro.1 ∈ s.first) || decide (ro ∈ s.indexedOnce))
+
+/-- the gate is open and every worker is past it -/
+def Open (s : GState R O) : Prop :=
+  s.isOn = true ∧ s.checked = [] ∧
+  ∀ ro w, s.workers ro = some w → w.pc ≠ .queued ∧ w.pc ≠ .indexed ∧ w.pc ≠ .waiting
 
 /-- decidable form of `Ready` for the witnesses and the driver -/
 def readyB (s : GState R O) : Bool :=
